@@ -5,12 +5,6 @@ C18 lemmas, layer 1: `Transaction::assign_row_ids` (`assignOne`, `assignRowIds`)
 namespace LanceModel.C18
 open LanceModel.Table LanceModel.C17 List
 
-/-- the ids a fragment already carries -/
-def RawFrag.have (f : RawFrag) : List Nat :=
-  match f.ids with
-  | none => []
-  | some l => l
-
 /-- more ids than physical rows -/
 def RawFrag.excess (f : RawFrag) : Bool := decide (f.phys < f.have.length)
 
